@@ -73,7 +73,19 @@ Inductive event :=
 | ELog (n d mr : Z)                    (* Logger.Error fields retry_no, wait_time, max_retries *)
 | EHook (n d : Z).                     (* OnRetryHook(retryNum, delay) *)
 
-Record run := Run { r_out : outcome; r_tret : Z; r_trace : list event }.
+(** one iteration of the retry loop as the model saw it (not observable from outside; the
+    theorems about the back-off schedule and the waits are stated over these records) *)
+Record witem := WItem {
+  w_k : nat;        (* retryNum *)
+  w_cur : Z;        (* currentInterval when NextBackOff was called *)
+  w_wait : Z;       (* what NextBackOff returned *)
+  w_prev : Z;       (* instant the previous attempt (and its hook) ended *)
+  w_tnb : Z;        (* instant of NextBackOff / of entering the select *)
+  w_twake : Z;      (* instant the select returned *)
+  w_ctx : bool      (* it returned through <-ctx.Done() *)
+}.
+
+Record run := Run { r_out : outcome; r_tret : Z; r_trace : list event; r_waits : list witem }.
 
 (** ** environment (oracles) *)
 Record sel := Sel {
@@ -106,20 +118,21 @@ Definition iterations (c : cfg) : nat := Z.to_nat (Z.max 1 (max_retries c)).
 Fixpoint loop (c : cfg) (h : nat -> outcome) (sl : nat -> sel)
          (rem k : nat) (cur now : Z) (last : outcome) : run :=
   match rem with
-  | O => Run ([], snd last) now []                               (* return nil, err *)
+  | O => Run ([], snd last) now [] []                            (* return nil, err *)
   | S rem' =>
     let s := sl k in
     let tnb := now + s_gap s in
     let '(wait, cur') := next_backoff c cur (s_elapsed s) (s_rnd s) in
-    if s_ctx s then Run last (tnb + s_wake s) []                 (* return producedMessages, err *)
+    let it := WItem k cur wait now tnb (tnb + s_wake s) (s_ctx s) in
+    if s_ctx s then Run last (tnb + s_wake s) [] [it]            (* return producedMessages, err *)
     else
       let ts := tnb + s_wake s in
       let te := ts + s_dur s in
       let o := h k in
-      if is_ok o then Run o te [ECall k ts te]
+      if is_ok o then Run o te [ECall k ts te] [it]
       else
         let r := loop c h sl rem' (S k) cur' te o in
-        Run (r_out r) (r_tret r) (ECall k ts te :: notes c k wait ++ r_trace r)
+        Run (r_out r) (r_tret r) (ECall k ts te :: notes c k wait ++ r_trace r) (it :: r_waits r)
   end.
 
 Definition t_end0 (e : env) : Z := e_t0 e + e_dur0 e.
@@ -127,10 +140,10 @@ Definition t_reset (e : env) : Z := t_end0 e + e_reset_gap e.
 
 Definition retry (c : cfg) (h : nat -> outcome) (e : env) : run :=
   let o := h O in
-  if is_ok o then Run o (t_end0 e) [ECall O (e_t0 e) (t_end0 e)]
+  if is_ok o then Run o (t_end0 e) [ECall O (e_t0 e) (t_end0 e)] []
   else
     let r := loop c h (e_sel e) (iterations c) 1 (initial c) (t_reset e) o in
-    Run (r_out r) (r_tret r) (ECall O (e_t0 e) (t_end0 e) :: r_trace r).
+    Run (r_out r) (r_tret r) (ECall O (e_t0 e) (t_end0 e) :: r_trace r) (r_waits r).
 
 (** ** the contract of the oracles (clock, timers, contexts, select) *)
 Definition min_opt (a b : option Z) : option Z :=
